@@ -45,14 +45,54 @@ class Disposables:
                 return multiple
 
     async def __aenter__(self) -> Iterable[State]:
-        return [
-            *chain.from_iterable(
-                state
-                for state in await gather(
-                    *[self._initialize(disposable) for disposable in self._disposables],
-                )
+        entered: list[Disposable] = []
+
+        async def initialize(disposable: Disposable) -> Iterable[State]:
+            state: Iterable[State] = await self._initialize(disposable)
+            entered.append(disposable)
+            return state
+
+        try:
+            results: list[Iterable[State] | BaseException] = await gather(
+                *[initialize(disposable) for disposable in self._disposables],
+                return_exceptions=True,  # wait for all of them to know which has to be exited
             )
-        ]
+
+        except BaseException as exc:  # cancelled while entering
+            await self._dispose(entered, exception=exc)
+            raise
+
+        exceptions: list[BaseException] = [exc for exc in results if isinstance(exc, BaseException)]
+
+        if exceptions:
+            exception: BaseException = (
+                exceptions[0]
+                if len(exceptions) == 1
+                else BaseExceptionGroup("Disposables initialization errors", exceptions)
+            )
+            # exit those which were already entered, the scope body will never run
+            await self._dispose(entered, exception=exception)
+            raise exception
+
+        return [*chain.from_iterable(state for state in results if not isinstance(state, BaseException))]
+
+    async def _dispose(
+        self,
+        disposables: Iterable[Disposable],
+        /,
+        exception: BaseException,
+    ) -> None:
+        await gather(
+            *[
+                disposable.__aexit__(
+                    type(exception),
+                    exception,
+                    exception.__traceback__,
+                )
+                for disposable in disposables
+            ],
+            return_exceptions=True,
+        )
 
     async def __aexit__(
         self,
